@@ -8,6 +8,9 @@ CONSTANTS
   Dev_IsAfterStrict = FALSE
   Dev_NoHasHead = FALSE
   Dev_NoParentAclCheck = FALSE
+  Dev_StaleScratch = FALSE
+  Dev_MemoWriter = FALSE
+  Dev_RollbackOnlyHeads = FALSE
 INVARIANT Inv
 INVARIANT PermHistoryFaithful
 INVARIANT StoredStaysValid
